@@ -24,6 +24,12 @@ var Epoch = time.Unix(1800000000, 0) //nolint:gochecknoglobals
 // ErrScriptedWrite is the injected connection write failure.
 var ErrScriptedWrite = errors.New("scripted write failure")
 
+// ErrScriptedAgentStart is the injected failure of the agent's Start.
+var ErrScriptedAgentStart = errors.New("scripted agent start failure")
+
+// ErrReadDeadline is the base of the scripted read timeouts.
+var ErrReadDeadline = errors.New("scripted read deadline exceeded")
+
 // ErrConnClosed is returned by the scripted connection after Close.
 var ErrConnClosed = errors.New("sim connection closed")
 
@@ -86,13 +92,33 @@ type World struct {
 	useRoles int32
 	// Base is the instant of virtual time zero (Epoch unless set before the client is created).
 	Base time.Time
+	// nows is every value the virtual clock has held (it starts at 0).
+	nows map[int64]struct{}
+}
+
+// WasNow reports whether t is an instant the virtual clock has shown at some point.
+func (w *World) WasNow(t time.Time) bool {
+	ns := int64(t.Sub(w.Base))
+	if !w.Base.Add(time.Duration(ns)).Equal(t) {
+		return false
+	}
+	w.mu.Lock()
+	defer w.mu.Unlock()
+	if ns == 0 {
+		return true
+	}
+	_, ok := w.nows[ns]
+
+	return ok
 }
 
 // UseRoles switches role resolution on. KeepLog and Perturb must be set before the client is created.
 func (w *World) UseRoles() { atomic.StoreInt32(&w.useRoles, 1) }
 
 // NewWorld makes a world at virtual time zero.
-func NewWorld() *World { return &World{roles: map[int64]string{}, sig: 1469598103934665603, Base: Epoch} }
+func NewWorld() *World {
+	return &World{roles: map[int64]string{}, sig: 1469598103934665603, Base: Epoch}
+}
 
 // Tick advances and returns the logical clock.
 func (w *World) Tick() int64 { return atomic.AddInt64(&w.stamp, 1) }
@@ -107,7 +133,17 @@ func (w *World) Now() time.Time { return w.Base.Add(time.Duration(atomic.LoadInt
 func (w *World) VNow() int64 { return atomic.LoadInt64(&w.vnow) }
 
 // SetNow sets the virtual time (ns since Epoch).
-func (w *World) SetNow(ns int64) { atomic.StoreInt64(&w.vnow, ns) }
+func (w *World) SetNow(ns int64) {
+	w.mu.Lock()
+	if w.nows == nil {
+		w.nows = map[int64]struct{}{}
+	}
+	if len(w.nows) < 1<<16 {
+		w.nows[ns] = struct{}{}
+	}
+	w.mu.Unlock()
+	atomic.StoreInt64(&w.vnow, ns)
+}
 
 // SetRole names the calling goroutine.
 func (w *World) SetRole(role string) {
@@ -269,6 +305,13 @@ type Conn struct {
 	writes     []WriteRec
 	failNext   int
 	failed     int   // scripted failures delivered so far
+	shortNext  int   // next writes report one byte less than they were given, without an error
+	readErrs   int   // next Reads fail with a timeout-shaped error (an expired read deadline on an idle socket)
+	timeoutEOF int32 // after ReleaseReadWithTimeouts: Read keeps returning timeout errors instead of EOF
+	// ReadErrsServed counts scripted read errors delivered.
+	ReadErrsServed int32
+	// OnWrite, if set, is called inside Write (after the datagram was recorded) with the number of writes so far.
+	OnWrite    func(n int)
 	afterClose int32 // writes attempted after Close
 	// HalfCloses counts CloseRead/CloseWrite calls (a connection the client does not own must not see any).
 	HalfCloses int32
@@ -285,6 +328,25 @@ func NewConn(w *World) *Conn {
 // Read blocks until the monitor delivers a datagram or the connection is closed/released.
 func (c *Conn) Read(p []byte) (int, error) {
 	c.W.CP("conn.Read")
+	c.mu.Lock()
+	if c.readErrs > 0 {
+		c.readErrs--
+		c.mu.Unlock()
+		atomic.AddInt32(&c.ReadErrsServed, 1)
+
+		return 0, DressError(ErrReadDeadline, 1+int(atomic.LoadInt32(&c.ReadErrsServed))%2)
+	}
+	c.mu.Unlock()
+	if atomic.LoadInt32(&c.timeoutEOF) == 1 {
+		select {
+		case <-c.closed:
+			runtime.Gosched()
+			atomic.AddInt32(&c.ReadErrsServed, 1)
+
+			return 0, DressError(ErrReadDeadline, 1)
+		default:
+		}
+	}
 	select {
 	case d := <-c.in:
 		return copy(p, d), nil
@@ -319,11 +381,24 @@ func (c *Conn) Write(b []byte) (int, error) {
 		kind = c.failed + len(c.writes)
 		c.failed++
 	}
+	short := false
+	if !rec.Failed && c.shortNext > 0 {
+		c.shortNext--
+		short = true
+	}
 	c.writes = append(c.writes, rec)
+	nw := len(c.writes)
+	hook := c.OnWrite
 	c.mu.Unlock()
+	if hook != nil {
+		hook(nw)
+	}
 	c.W.CP("conn.Write.after")
 	if rec.Failed {
 		return 0, DressError(ErrScriptedWrite, kind)
+	}
+	if short && len(b) > 0 {
+		return len(b) - 1, nil
 	}
 
 	return len(b), nil
@@ -356,6 +431,27 @@ func (c *Conn) CloseWrite() error {
 
 // ReleaseRead unblocks a pending Read without counting as a Close (WithNoConnClose precondition).
 func (c *Conn) ReleaseRead() { c.closeOnce.Do(func() { close(c.closed) }) }
+
+// ShortNext makes the next n writes report len-1 bytes written and no error.
+func (c *Conn) ShortNext(n int) {
+	c.mu.Lock()
+	c.shortNext += n
+	c.mu.Unlock()
+}
+
+// FailReads makes the next n Reads fail with a timeout-shaped error.
+func (c *Conn) FailReads(n int) {
+	c.mu.Lock()
+	c.readErrs += n
+	c.mu.Unlock()
+}
+
+// ReleaseReadWithTimeouts unblocks a pending Read like ReleaseRead, but from then on every Read returns a timeout
+// error (an owner that wakes the reader of a shared connection by setting a read deadline in the past).
+func (c *Conn) ReleaseReadWithTimeouts() {
+	atomic.StoreInt32(&c.timeoutEOF, 1)
+	c.closeOnce.Do(func() { close(c.closed) })
+}
 
 // FailNext makes the next n writes fail.
 func (c *Conn) FailNext(n int) {
@@ -474,6 +570,13 @@ type TapAgent struct {
 	CloseErr error
 	// OnClosed is called after the inner Close returned (used to release a pending Read under WithNoConnClose).
 	OnClosed func()
+	// FailStarts makes the next n Start calls fail with ErrScriptedAgentStart (without reaching the inner agent).
+	FailStarts int32
+	// VirtualClock: the client was given the world's clock, so every Collect time must be a reading of that clock.
+	VirtualClock bool
+	// Collects counts Collect calls; OffClock those whose time the virtual clock never showed (first one kept).
+	Collects, OffClock int32
+	OffClockExample    atomic.Value
 }
 
 // NewTapAgent wraps a fresh real agent.
@@ -506,6 +609,11 @@ func (a *TapAgent) Close() error {
 // Start implements stun.ClientAgent.
 func (a *TapAgent) Start(id [stun.TransactionIDSize]byte, deadline time.Time) error {
 	a.W.CP("agent.Start.before")
+	if atomic.LoadInt32(&a.FailStarts) > 0 && atomic.AddInt32(&a.FailStarts, -1) >= 0 {
+		a.W.CP("agent.Start.after")
+
+		return ErrScriptedAgentStart
+	}
 	err := a.Inner.Start(id, deadline)
 	a.W.CP("agent.Start.after")
 
@@ -523,6 +631,12 @@ func (a *TapAgent) Stop(id [stun.TransactionIDSize]byte) error {
 
 // Collect implements stun.ClientAgent.
 func (a *TapAgent) Collect(t time.Time) error {
+	atomic.AddInt32(&a.Collects, 1)
+	if a.VirtualClock && !a.W.WasNow(t) {
+		if atomic.AddInt32(&a.OffClock, 1) == 1 {
+			a.OffClockExample.Store(t.UTC().Format(time.RFC3339Nano) + " while the client's clock shows " + a.W.Now().UTC().Format(time.RFC3339Nano))
+		}
+	}
 	a.W.CP("agent.Collect.before")
 	err := a.Inner.Collect(t)
 	a.W.CP("agent.Collect.after")
